@@ -16,7 +16,7 @@ RULE = ('cases: seeded operation histories (insert / replace / non-negative incr
 ASSUMPTIONS = ['a rejection bound that is stale-high is correct (only slower) and is not flagged; stale-low is']
 BUDGET = {'quick': 150, 'thorough': 1200}
 CHUNK = {'quick': 20, 'thorough': 100}
-REQUIRED = ['endurance_runs', 'long_history_totals_checked', 'dominant_candidate_removals', 'laws_extracted', 'candidates_law_checked', 'totals_checked', 'heaviest_changes', 'zero_weight_candidates_seen', 'real_selections_checked']
+REQUIRED = ['bounds_checked_against_history_since_last_empty', 'endurance_runs', 'long_history_totals_checked', 'dominant_candidate_removals', 'laws_extracted', 'candidates_law_checked', 'totals_checked', 'heaviest_changes', 'zero_weight_candidates_seen', 'real_selections_checked']
 PATTERNS = ['random', 'heaviest_churn', 'drain_refill', 'equal', 'replace_heavy', 'zero_mix', 'dominant']
 FAMILIES = ['dyadic', 'nondyadic', 'wide', 'equal', 'withzero']
 
@@ -195,9 +195,13 @@ class _Tail(object):
         return self.n
 
 
+_LAST = {'direct': False}
+
+
 def extract_law(L, weighted, shadow, res, tag):
     """returns False on violation / inconclusive"""
     import EoN.simulation as sim
+    _LAST['direct'] = False
     if not shadow:
         return {}
     thr = {}
@@ -219,6 +223,7 @@ def extract_law(L, weighted, shadow, res, tag):
         if dr and not ch:
             # one direct categorical draw (random.choices): the log entry carries the law
             bump(res, 'direct_draws_seen')
+            _LAST['direct'] = True
             pop = tuple(dr[0][1])
             n = len(pop)
             thr = {}
@@ -315,6 +320,7 @@ def run_case(case):
     tag = '_ListDict_|%s|%s' % ('weighted' if weighted else 'unweighted', pat)
     universe = [('n', i) if i % 2 else i for i in range(case['size'])]
     distinct_law = False
+    hist_max = 0.0
     endured = False
     heaviest_before = None
 
@@ -392,6 +398,11 @@ def run_case(case):
                 op_remove(r.choice(present))
             else:
                 pass
+            # the largest weight present at any time since the list was last empty: no rejection bound needs to be higher than that
+            if len(L) == 0:
+                hist_max = 0.0
+            elif shadow:
+                hist_max = max(hist_max, max(shadow.values()))
             # --- quiescent point: invariants
             if step % 10 == 9 or step == case['nops'] - 1:
                 sw = sum(shadow.values()) if weighted else float(len(shadow))
@@ -417,6 +428,16 @@ def run_case(case):
                     acc_p = extract_law(L, weighted, shadow, res, tag)
                     if acc_p is False:
                         return res
+                    if weighted and acc_p and hist_max > 0 and not _LAST['direct'] and pat != 'dominant':
+                        # bounded progress: the accept probability of x is w(x)/bound; a bound above every weight seen since the list
+                        # was last empty is explained by nothing and can starve the selection (w/bound arbitrarily small)
+                        bump(res, 'bounds_checked_against_history_since_last_empty')
+                        low = [x for x in acc_p if shadow.get(x, 0) > 0 and acc_p[x] < shadow[x] / hist_max * (1 - 1e-9)]
+                        if low:
+                            x = low[0]
+                            viol(res, tag + '|rejection_bound_above_every_weight_since_the_list_was_last_empty',
+                                 {'item': repr(x), 'weight': shadow[x], 'accept_probability': acc_p[x], 'largest_weight_since_last_empty': hist_max})
+                            return res
                     # real selections through the real RNG, only where rejection sampling is not astronomically slow
                     # (a stale-high rejection bound is legitimate, so the harness must not wait on it)
                     if acc_p and sum(acc_p.values()) / len(acc_p) >= 1e-3:
